@@ -39,6 +39,8 @@ QueryClause ==
           LET q == C.queries[i]  x == <<1>> \o q.x IN
           InFootprint(Pt, 1..N, x) /\ LET o == Offset(Pt, N, q.y, x) IN o[1] >= 0 /\ ~Agrees(q.dq, o)
     THEN "query-distance-differs-from-vertical-offset"
+    ELSE IF \E i \in 1..Len(C.queries) : InFootprint(Pt, 1..N, <<1>> \o C.queries[i].x) /\ IAbs(C.queries[i].dqb - C.queries[i].dq) > 1
+    THEN "distance-in-a-batch-differs-from-the-distance-of-the-sample-alone"
     ELSE "ok"
 \* metamorphic: the base fit used the first C.nbase samples (the others were added strictly above), y' = A*y + B
 BasePt == [i \in 1..C.nbase |-> [Pt[i] EXCEPT ![1] = (Pt[i][1] - C.B) \div C.A]]
